@@ -512,6 +512,18 @@ impl C13 {
         }
         if let Some((op, alone, got)) = mismatch {
             rep.count("answer_differs_from_alone", 1);
+            let cls = |a: &Answer| if a.ok { "Ok".to_string() } else { a.text.clone() };
+            // Order dependence of cached answers exists only in the territory of known finding K2
+            // (tolerant mode, document with a typed reference cycle; C12 shows the caches invisible
+            // everywhere else). Outside it every answer must simply equal the alone answer - with or
+            // without eviction faults, no sequential explanation accepted.
+            if !(case.tolerant && self.doc_has_cycle(&case.doc)) {
+                v.push((
+                    format!("answer differs from the alone answer: {} alone={} concurrent={}", op.kind(), cls(&alone), cls(&got)),
+                    format!("op {:?}: alone {} / concurrent {}", op, alone.text, got.text),
+                ));
+                return v;
+            }
             let with_ev = !case.evict_at.is_empty();
             match explained_sequentially(case, &out.answers, with_ev) {
                 Some(true) => rep.count("explained_sequentially", 1),
@@ -521,7 +533,6 @@ impl C13 {
                         // mid-operation evictions are not part of the sequential explanation space
                         rep.count("unexplained_under_eviction", 1);
                     } else {
-                        let cls = |a: &Answer| if a.ok { "Ok".to_string() } else { a.text.clone() };
                         v.push((
                             format!("non-sequential answer: {} alone={} concurrent={}", op.kind(), cls(&alone), cls(&got)),
                             format!("op {:?}: alone {} / concurrent {}", op, alone.text, got.text),
@@ -634,8 +645,8 @@ impl Check for C13 {
             assumptions: vec![
                 "baton engine: preemption only at the seam points (log_get, cache entry/exit, compute start/end, load_object, Lazy enter/exit, op boundary); code between two seam points runs atomically".into(),
                 "blocking on an in-process cache entry and on a OnceCell initialiser is simulated by the scheduler (the real SyncCache condvar wait path does not run in this engine)".into(),
-                "alone answer = the same call on a freshly opened uncached document, single-threaded; a difference that some sequential order on the same cached configuration reproduces is counted as order dependence (C12), not reported here".into(),
-                "unexplained differences in runs with eviction faults are counted, not reported (mid-operation eviction is outside the sequential explanation space)".into(),
+                "alone answer = the same call on a freshly opened uncached document, single-threaded; every answer must equal it. Only in the territory of known finding K2 (tolerant mode + document with a typed reference cycle) a difference that some sequential order on the same cached configuration reproduces is counted as order dependence (C12/K2) instead".into(),
+                "in that K2 territory, unexplained differences in runs with eviction faults are counted, not reported (mid-operation eviction is outside the sequential explanation space)".into(),
             ],
             components_real: vec!["pdf crate (all of it)", "pdf_derive", "globalcache::sync::SyncCache get/clear/clean (non-blocking paths)", "std threads, std::sync::Mutex in StorageResolver"],
             components_stub: vec!["wait on an in-process cache entry (simulated block)", "wait on a OnceCell being initialised (simulated block)", "NoCache replaced by an equivalent that yields"],
